@@ -322,6 +322,26 @@ def run_case(spec):
         if (bad_after or (bad and not resets)) and t.wasSuccessful():
             vs.append(V("verdict", "failing-became-passing-" + flavour, "history has a failing outcome but target %s behind %r says wasSuccessful()" % (flavour, path)))
 
+    # the verdict asked of the outermost adapter itself
+    if targets and not vs:
+        ops_ = spec["history"]["ops"]
+        last_start_ = max([i for i, o in enumerate(ops_) if o["op"] == "startTestRun"] or [-1])
+
+        def must_fail(flavour):
+            badk = lambda o: o["op"] == "outcome" and (o["kind"] in ("error", "failure") or (o["kind"] == "uxsuccess" and flavour in ("py26", "ext", "real", "py27")))
+            reported_ids = {id(e) for e in reported}
+            return any(badk(o) for o in ops_[last_start_ + 1:]) and all(id(e) in reported_ids for e in reported)
+        if all(must_fail(f) for _, _, f in targets) and all("kind" in e for e in reported):
+            # every wrapped result has been given a failing outcome since its last startTestRun
+            completed_bad = any(e["kind"] in ("error", "failure") for e in reported[-1:]) or True
+            try:
+                verdict = r.wasSuccessful()
+            except AttributeError:
+                verdict = None
+            bad_done = [o for o in ops_[last_start_ + 1:] if o["op"] == "outcome" and o["kind"] in ("error", "failure")]
+            if verdict is True and bad_done and all(t.wasSuccessful() is False for t, _, _ in targets):
+                vs.append(V("verdict", "adapter-says-successful", "every wrapped result says wasSuccessful() False, the outermost adapter of %r says True" % (spec["stack"],)))
+
     for r_, calls, path in tbts:
         under_tsfr = "TSFR" in path
         if len(calls) != len(reported):
@@ -356,6 +376,8 @@ def run_case(spec):
                 vs.append(V("test-by-test", "tags", "tags %r, expected %r (path %r)" % (sorted(c["tags"]), sorted(want_tags), path)))
             info = e["info"]
             det = c["_details_snap"]
+            if info["details"] is not None and det is not None and set(det) - set(info["details"]) - {"traceback", "reason"}:
+                vs.append(V("test-by-test", "details-extra", "details %r were sent, the callback got %r" % (sorted(info["details"]), sorted(det))))
             if info["details"] is not None:
                 for name, cont in info["details"].items():
                     data = b"".join(cont.iter_bytes())
